@@ -431,7 +431,48 @@ func runC03(c *mon.Ctx) {
 			})
 		}
 	}
+	c03DuplicateMembers(c)
 	c.Floor("built", 100)
 	c.Floor("reparsed", 300)
 	c.Floor("id_sensitivity_checks", 200)
+}
+
+// c03DuplicateMembers: a proto-event whose content repeats a member name. Build may refuse it; if it builds, the event
+// has to re-parse as untrusted input like any other built event.
+func c03DuplicateMembers(c *mon.Ctx) {
+	if c.Shard != 0 {
+		return
+	}
+	id := gen.NewIdentity(c.RandShared("id"), "a.example", "ed25519:k1")
+	for _, ver := range sortedVersions() {
+		t := ref.Traits(string(ver))
+		if t == nil {
+			continue
+		}
+		impl := gmsl.MustGetRoomVersion(ver)
+		for _, content := range []string{`{"body":"x","body":"y"}`, `{"a":{"k":1,"k":2}}`, `{"list":[{"k":1,"k":1}]}`, `{"membership":"join","membership":"leave"}`} {
+			ps := protoSpec{Type: "m.room.message", Sender: "@alice:a.example", RoomID: "!room:a.example", Depth: 3, Content: []byte(content), Prev: []string{fakeEventID(c.RandShared("dup"), t)}, Auth: []string{fakeEventID(c.RandShared("dup"), t)}}
+			if t.Domainless {
+				ps.RoomID = "!" + strings.Repeat("A", 43)
+				ps.Auth = []string{}
+			}
+			c.Case("build:duplicate-member:"+string(ver), map[string]any{"version": ver, "content": content}, func() {
+				c.Nontrivial("dup|" + string(ver) + "|" + content)
+				ev, err := buildEvent(ver, ps, id, baseTime)
+				if err != nil {
+					c.Count("duplicate_member_protos_refused")
+					return
+				}
+				c.Count("duplicate_member_protos_built")
+				back, err := impl.NewEventFromUntrustedJSON(ev.JSON())
+				if err != nil {
+					c.Failf("roundtrip:untrusted:built-event-refused:duplicate-member", "Build(v%s) accepts the content %s but the event it returns does not re-parse: %v", ver, content, err)
+					return
+				}
+				if back.EventID() != ev.EventID() || back.Redacted() {
+					c.Failf("roundtrip:untrusted:event_id", "the built event re-parses with ID %s (redacted=%v), built %s", back.EventID(), back.Redacted(), ev.EventID())
+				}
+			})
+		}
+	}
 }
